@@ -55,6 +55,14 @@ def handleXdr : List Sexp → Option String
     match decImpl (← xdrTmpl? t) (← asBytes? b) with
     | .ok (d, rest) => pure (toString (list [atom "ok", xdrDataSexp d, atom (bytesToHex rest)]))
     | .error _ => pure "(err)"
+  | [atom "xdr-dec-e", t, b] => do
+    -- like xdr-dec, with the error class: short = the reader ran out of data
+    match decImpl (← xdrTmpl? t) (← asBytes? b) with
+    | .ok (d, rest) => pure (toString (list [atom "ok", xdrDataSexp d, atom (bytesToHex rest)]))
+    | .error .short => pure "(err short)"
+    | .error .fuel => pure "(err fuel)"
+    | .error .neglen => pure "(err neglen)"
+    | .error _ => pure "(err other)"
   | [atom "xdr-decv", t, b] => do
     match decImpl (← xdrTmpl? t) (← asBytes? b) with
     | .ok (d, _) => pure (toString (list [atom "ok", xdrDataSexp d]))
